@@ -5,7 +5,7 @@
    valloc o (a|none) | vfree o a | vgc | vinit | vlist
    rcreate r o | runlink r o | rgc
    ecreate SPEC (o|none) | eunlink SPEC (o|none) | eunlinkall app (proto|none) (endp|none) (o|none) ORD | egc
-   srestart | screate o ENV | sdelete o | ssync
+   srestart | screate o ENV | screatecut o ENV | sdelete o | sdeletecut o | devgone o | ssync
 
    KEY  = v<addr> | j<n> | s<addr> | r<n> | e<SPEC>;  SPEC = app.proto.endp.rport.pid.port
    ORD  = `-` or SPEC;SPEC;…   (what glob.glob returned, in its order)
@@ -103,6 +103,7 @@ def parseOp (ws : List String) : Option Op :=
   | ["egc"] => some .epGc
   | ["srestart"] => some .svcRestart
   | ["screate", o, env] => do some (Op.svcCreate (← o.toNat?) (parseEnv env))
+  | ["screatecut", o, env] => do some (Op.svcCreateCut (← o.toNat?) (parseEnv env))
   | ["sdelete", o] => o.toNat?.map Op.svcDelete
   | ["sdeletecut", o] => o.toNat?.map Op.svcDeleteCut
   | ["devgone", o] => o.toNat?.map Op.devGone
